@@ -14,6 +14,14 @@ import (
 // the request/ok pair), so renaming a local does not change the output.  Statements are then
 // recognised textually; anything else becomes `.other` plus a translator problem.
 
+// problems of THIS translator: kept apart from the global list so that a rewrite of the live
+// generator breaks C19's obligations only (Props/C19.live_translator_clean), not every property.
+var liveProblems []string
+
+func liveProblem(format string, a ...interface{}) {
+	liveProblems = append(liveProblems, fmt.Sprintf(format, a...))
+}
+
 // renameIdents renames plain identifiers (not selector fields, not struct keys) in place.
 func renameIdents(n ast.Node, m map[string]string) {
 	skip := map[*ast.Ident]bool{}
@@ -62,7 +70,7 @@ func liveSelOp(s string) string {
 	case "out <- request":
 		return ".sendOut"
 	}
-	problem("live: unrecognised select case %q", s)
+	liveProblem("live: unrecognised select case %q", s)
 	return ".other"
 }
 
@@ -77,7 +85,7 @@ func liveAct(s string) string {
 	case "requests, _ = rg.delegate.GenerateRequests(ctx, r)":
 		return ".regen"
 	}
-	problem("live: unrecognised statement %q", s)
+	liveProblem("live: unrecognised statement %q", s)
 	return ".other"
 }
 
@@ -94,7 +102,7 @@ func liveSelect(sel *ast.SelectStmt) string {
 	for _, c := range sel.Body.List {
 		cc := c.(*ast.CommClause)
 		if cc.Comm == nil {
-			problem("live: select with a default case")
+			liveProblem("live: select with a default case")
 			t = append(t, "(.other, [])")
 			continue
 		}
@@ -152,7 +160,7 @@ func genLive() {
 		}
 	}
 	if ctor := findFunc(f, "", "NewLiveRequestGenerator"); ctor == nil {
-		problem("live: NewLiveRequestGenerator not found")
+		liveProblem("live: NewLiveRequestGenerator not found")
 	} else {
 		p := paramNames(ctor.Type.Params)
 		if len(p) == 2 && len(ctor.Body.List) == 1 {
@@ -163,7 +171,7 @@ func genLive() {
 			}
 		}
 		if d["ctorBindsRescan"] != "true" {
-			problem("live: constructor/struct shape not recognised: %q", src(ctor.Body))
+			liveProblem("live: constructor/struct shape not recognised: %q", src(ctor.Body))
 		}
 	}
 
@@ -171,13 +179,13 @@ func genLive() {
 	helper := func(name string, roles []string, key string, tail string) {
 		fd := findFunc(f, "", name)
 		if fd == nil {
-			problem("live: %s not found", name)
+			liveProblem("live: %s not found", name)
 			return
 		}
 		m := map[string]string{}
 		names := append(paramNames(fd.Type.Params), paramNames(fd.Type.Results)...)
 		if len(names) != len(roles) {
-			problem("live: %s has %d named params/results, expected %d", name, len(names), len(roles))
+			liveProblem("live: %s has %d named params/results, expected %d", name, len(names), len(roles))
 			return
 		}
 		for i, n := range names {
@@ -187,14 +195,14 @@ func genLive() {
 		body := fd.Body.List
 		if tail != "" {
 			if len(body) != 2 || src(body[1]) != tail {
-				problem("live: %s: unexpected body %q", name, src(fd.Body))
+				liveProblem("live: %s: unexpected body %q", name, src(fd.Body))
 				return
 			}
 			body = body[:1]
 		}
 		sel, ok := body[0].(*ast.SelectStmt)
 		if len(body) != 1 || !ok {
-			problem("live: %s: unexpected body %q", name, src(fd.Body))
+			liveProblem("live: %s: unexpected body %q", name, src(fd.Body))
 			return
 		}
 		d[key] = liveSelect(sel)
@@ -205,7 +213,7 @@ func genLive() {
 	// ---- GenerateRequests ----
 	fd := findFunc(f, "liveRequestGenerator", "GenerateRequests")
 	if fd == nil {
-		problem("live: liveRequestGenerator.GenerateRequests not found")
+		liveProblem("live: liveRequestGenerator.GenerateRequests not found")
 	} else {
 		liveBody(fd, d)
 	}
@@ -220,6 +228,9 @@ func genLive() {
 	all["live.desc"] = d
 
 	genArpWiring(&sb)
+	sb.WriteString("/-- shapes of the live generator / arp wiring that `sxfacts` did not recognise; `Props/C19` requires `[]` -/\n")
+	sb.WriteString("def liveTranslatorProblems : List String := " + leanStrList(liveProblems) + "\n\n")
+	all["live.problems"] = liveProblems
 	sb.WriteString("end SxVerif.Generated\n")
 	writeLean("Live.lean", sb.String())
 }
@@ -231,7 +242,7 @@ func liveBody(fd *ast.FuncDecl, d map[string]string) {
 	}
 	p := paramNames(fd.Type.Params)
 	if len(p) != 2 {
-		problem("live: GenerateRequests: parameters %v", p)
+		liveProblem("live: GenerateRequests: parameters %v", p)
 		return
 	}
 	m[p[0]], m[p[1]] = "ctx", "r"
@@ -272,26 +283,26 @@ func liveBody(fd *ast.FuncDecl, d map[string]string) {
 	seen := map[string]string{}
 	for from, to := range m {
 		if prev, dup := seen[to]; dup && prev != from {
-			problem("live: two identifiers (%s, %s) in the role %s", prev, from, to)
+			liveProblem("live: two identifiers (%s, %s) in the role %s", prev, from, to)
 		}
 		seen[to] = from
 	}
 	renameIdents(fd, m)
 
 	if len(st) != 5 || goFn == nil {
-		problem("live: GenerateRequests: expected 5 top-level statements with one goroutine, got %d", len(st))
+		liveProblem("live: GenerateRequests: expected 5 top-level statements with one goroutine, got %d", len(st))
 		return
 	}
 	d["passZeroFirst"] = leanBool(src(st[0]) == "requests, err := rg.delegate.GenerateRequests(ctx, r)")
 	d["startErrReturned"] = leanBool(src(st[1]) == "if err != nil { return nil, err }")
 	d["outCapOfRequests"] = leanBool(src(st[2]) == "out := make(chan *Request, cap(requests))")
 	if _, ok := st[3].(*ast.GoStmt); !ok {
-		problem("live: GenerateRequests: fourth statement is not the goroutine")
+		liveProblem("live: GenerateRequests: fourth statement is not the goroutine")
 	}
 	d["returnsOut"] = leanBool(src(st[4]) == "return out, nil")
 	for _, k := range []string{"passZeroFirst", "startErrReturned", "outCapOfRequests", "returnsOut"} {
 		if d[k] != "true" {
-			problem("live: GenerateRequests: %s does not hold", k)
+			liveProblem("live: GenerateRequests: %s does not hold", k)
 		}
 	}
 
@@ -306,30 +317,30 @@ func liveBody(fd *ast.FuncDecl, d map[string]string) {
 		case *ast.DeclStmt:
 			gd, ok := v.Decl.(*ast.GenDecl)
 			if !ok || gd.Tok != token.VAR {
-				problem("live: goroutine: declaration %q", src(s))
+				liveProblem("live: goroutine: declaration %q", src(s))
 				continue
 			}
 			for _, sp := range gd.Specs {
 				if vs := sp.(*ast.ValueSpec); len(vs.Values) != 0 {
-					problem("live: goroutine: initialised variable %q", src(s))
+					liveProblem("live: goroutine: initialised variable %q", src(s))
 				}
 			}
 		case *ast.ForStmt:
 			if i == len(gl)-1 && v.Init == nil && v.Cond == nil && v.Post == nil {
 				loop = v
 			} else {
-				problem("live: goroutine: loop is not a trailing `for { }`")
+				liveProblem("live: goroutine: loop is not a trailing `for { }`")
 			}
 		default:
-			problem("live: goroutine: unexpected statement %q", src(s))
+			liveProblem("live: goroutine: unexpected statement %q", src(s))
 		}
 	}
 	d["defersCloseOutOnly"] = leanBool(len(defers) == 1 && defers[0] == "close(out)")
 	if d["defersCloseOutOnly"] != "true" {
-		problem("live: goroutine defers %v", defers)
+		liveProblem("live: goroutine defers %v", defers)
 	}
 	if loop == nil {
-		problem("live: goroutine: no loop")
+		liveProblem("live: goroutine: no loop")
 		return
 	}
 	d["loopForever"] = "true"
@@ -340,13 +351,13 @@ func liveBody(fd *ast.FuncDecl, d map[string]string) {
 			if v.Else == nil && v.Init != nil && src(v.Init) == "request, ok = readRequest(ctx, requests)" && src(v.Cond) == "ok" {
 				ls = append(ls, ".ifRead "+liveActs(v.Body.List))
 			} else {
-				problem("live: loop: unrecognised if %q", src(s))
+				liveProblem("live: loop: unrecognised if %q", src(s))
 				ls = append(ls, ".other")
 			}
 		case *ast.SelectStmt:
 			ls = append(ls, ".sel "+liveSelect(v))
 		default:
-			problem("live: loop: unexpected statement %q", src(s))
+			liveProblem("live: loop: unexpected statement %q", src(s))
 			ls = append(ls, ".other")
 		}
 	}
@@ -373,7 +384,7 @@ func liveBody(fd *ast.FuncDecl, d map[string]string) {
 	})
 	for i := classified; i < countIdent(goFn, "requests"); i++ {
 		uses = append(uses, ".other")
-		problem("live: goroutine mentions `requests` outside readRequest / the re-binding")
+		liveProblem("live: goroutine mentions `requests` outside readRequest / the re-binding")
 	}
 	d["reqUses"] = "[" + strings.Join(uses, ", ") + "]"
 
@@ -390,7 +401,7 @@ func liveBody(fd *ast.FuncDecl, d map[string]string) {
 	})
 	d["outOnlyClosedAndWritten"] = leanBool(outOK == countIdent(goFn, "out"))
 	if d["outOnlyClosedAndWritten"] != "true" {
-		problem("live: goroutine uses `out` outside close / writeRequest")
+		liveProblem("live: goroutine uses `out` outside close / writeRequest")
 	}
 }
 
@@ -403,7 +414,7 @@ func arpCond(s string) string {
 	case "o.liveTimeout > 0":
 		return ".livePositive"
 	}
-	problem("arp wiring: unrecognised condition %q", s)
+	liveProblem("arp wiring: unrecognised condition %q", s)
 	return ".other"
 }
 
@@ -416,7 +427,7 @@ func arpCtor(s string) string {
 	case "scan.NewLiveRequestGenerator(reqgen, o.liveTimeout)":
 		return ".live"
 	}
-	problem("arp wiring: unrecognised generator %q", s)
+	liveProblem("arp wiring: unrecognised generator %q", s)
 	return ".other"
 }
 
@@ -428,7 +439,7 @@ func genArpWiring(sb *strings.Builder) {
 	flagOK := false
 
 	if fd := findFunc(f, "arpCmdOpts", "newARPScanMethod"); fd == nil {
-		problem("arp wiring: newARPScanMethod not found")
+		liveProblem("arp wiring: newARPScanMethod not found")
 	} else {
 		m := map[string]string{}
 		if len(fd.Recv.List[0].Names) == 1 {
@@ -451,7 +462,7 @@ func genArpWiring(sb *strings.Builder) {
 						if len(vs.Values) == 1 {
 							rows = append(rows, fmt.Sprintf("(.always, %s)", arpCtor(src(vs.Values[0]))))
 						} else {
-							problem("arp wiring: generator declared without a value")
+							liveProblem("arp wiring: generator declared without a value")
 						}
 					}
 				}
@@ -465,7 +476,7 @@ func genArpWiring(sb *strings.Builder) {
 				}
 				a, isAs := as.(*ast.AssignStmt)
 				if !ok || !isAs || a.Tok != token.ASSIGN || len(a.Lhs) != 1 || src(a.Lhs[0]) != "reqgen" || len(a.Rhs) != 1 {
-					problem("arp wiring: unrecognised conditional %q", src(s))
+					liveProblem("arp wiring: unrecognised conditional %q", src(s))
 					rows = append(rows, "(.other, .other)")
 					continue
 				}
@@ -482,22 +493,22 @@ func genArpWiring(sb *strings.Builder) {
 						len(call.Args) == 2 && src(call.Args[0]) == "reqgen" {
 						sourceUses = true
 					} else if countIdent(r, "reqgen") > 0 {
-						problem("arp wiring: generator used in %q", src(s))
+						liveProblem("arp wiring: generator used in %q", src(s))
 					}
 				}
 			default:
 				if countIdent(s, "reqgen") > 0 {
-					problem("arp wiring: generator used in %q", src(s))
+					liveProblem("arp wiring: generator used in %q", src(s))
 				}
 			}
 		}
 		if !sourceUses {
-			problem("arp wiring: scan.NewPacketSource(reqgen, …) not found")
+			liveProblem("arp wiring: scan.NewPacketSource(reqgen, …) not found")
 		}
 	}
 
 	if fd := findFunc(f, "arpCmdOpts", "getLogger"); fd == nil {
-		problem("arp wiring: getLogger not found")
+		liveProblem("arp wiring: getLogger not found")
 	} else {
 		m := map[string]string{}
 		if len(fd.Recv.List[0].Names) == 1 {
@@ -518,13 +529,13 @@ func genArpWiring(sb *strings.Builder) {
 			return true
 		})
 		if n != 1 {
-			problem("arp wiring: expected one conditional NewUniqueLogger wrap in getLogger, found %d", n)
+			liveProblem("arp wiring: expected one conditional NewUniqueLogger wrap in getLogger, found %d", n)
 			uniq = ".other"
 		}
 	}
 
 	if fd := findFunc(f, "arpCmdOpts", "initCliFlags"); fd == nil {
-		problem("arp wiring: initCliFlags not found")
+		liveProblem("arp wiring: initCliFlags not found")
 	} else {
 		m := map[string]string{}
 		if len(fd.Recv.List[0].Names) == 1 {
@@ -539,7 +550,7 @@ func genArpWiring(sb *strings.Builder) {
 			return true
 		})
 		if !flagOK {
-			problem("arp wiring: DurationVar(&o.liveTimeout, \"live\", 0, …) not found")
+			liveProblem("arp wiring: DurationVar(&o.liveTimeout, \"live\", 0, …) not found")
 		}
 	}
 
